@@ -10,6 +10,11 @@ patch = os.path.join(d, "patch.diff")
 assert subprocess.run(["git", "-C", REPO, "status", "--porcelain", "--untracked-files=no"], stdout=subprocess.PIPE, text=True).stdout.strip() == "", "/repo not clean"
 subprocess.run(["git", "-C", REPO, "apply", patch], check=True)
 res = {}
+# the evidence files describe runs on the unchanged tree: what a seeded run writes is put aside afterwards
+saved = {}
+for c in checks:
+    ep = os.path.join(ROOT, "evidence", c + ".json")
+    saved[ep] = open(ep, "rb").read() if os.path.exists(ep) else None
 try:
     for c in checks:
         t0 = time.time()
@@ -19,6 +24,9 @@ try:
         print(c, res[c])
 finally:
     subprocess.run(["git", "-C", REPO, "checkout", "--", "."], check=True)
+    for ep, data in saved.items():
+        if data is not None:
+            open(ep, "wb").write(data)
 mp = os.path.join(d, "meta.json")
 m = json.load(open(mp)) if os.path.exists(mp) else {}
 m.setdefault("checks_run_against_it", {}).update(res)
